@@ -833,7 +833,10 @@ impl<'a> Parser<'a> {
                 _ => Ok(Some(PoeticNumberLiteralElem::Word(tok.spelling.into()))),
             },
         )?;
-        (!elems.is_empty())
+        // a literal needs at least one word: full stops (and orphan suffixes) alone spell no digit
+        elems
+            .iter()
+            .any(|e| matches!(e, PoeticNumberLiteralElem::Word(_)))
             .then(|| PoeticNumberLiteral { elems }.into())
             .ok_or_else(|| self.new_parse_error(ParseErrorCode::ExpectedPoeticNumberLiteral))
     }
